@@ -496,7 +496,7 @@ func (r *tunnelRun) one(cfgNo int, cfg tnCfg, conns int) {
 		if cfg.Kind == "tcpmux" {
 			c.TCPMuxHTTPConnectPort = muxPort
 		}
-		c.UserConnTimeout = 5
+		c.UserConnTimeout = 15 // generous: a loaded machine must not turn a slow work connection into a refused user
 		if cfg.Transport == "kcp" {
 			c.KCPBindPort = c.BindPort
 		}
@@ -687,6 +687,30 @@ func (r *tunnelRun) one(cfgNo int, cfg tnCfg, conns int) {
 				b.mu.Unlock()
 				r.runUser(cfgNo, cfg, userAddr[proxy], p, b, nBefore)
 			}
+			if proxy == 1 {
+				// several connections at once on one proxy (one limiter, one work-connection pool, pooled compression state):
+				// the same plan for all of them, told apart by their stream ids
+				size := int64(200 * 1024)
+				if cfg.Limit != "none" && cfg.LimitKB < 1024 {
+					size = int64(cfg.LimitKB) * 1024
+				}
+				back := tnPlan{downBytes: size, class: 't', chunk: 8192, closeAfter: "never"}
+				b.mu.Lock()
+				b.plan = func(*backendConn) tnPlan { return back }
+				nBefore := len(b.conns)
+				b.mu.Unlock()
+				var cg sync.WaitGroup
+				for k := 0; k < 4; k++ {
+					cg.Add(1)
+					up := &userPlan{u: uint32(cfgNo*100 + 90 + k), proxy: 1, class: []byte{'r', 'z', 't', 'r'}[k], upBytes: size, chunk: []int{1024, 4096, 16 * 1024, 64 * 1024}[k], mode: "D", closeAfter: "received", back: back}
+					go func(up *userPlan) {
+						defer cg.Done()
+						r.runUser(cfgNo, cfg, userAddr[1], up, b, nBefore)
+					}(up)
+				}
+				cg.Wait()
+				r.sh.stat("simultaneous", 4)
+			}
 		}(proxy, ps)
 	}
 	wg.Wait()
@@ -766,7 +790,7 @@ func (r *tunnelRun) runUser(cfgNo int, cfg tnCfg, addr string, p *userPlan, b *t
 	switch cfg.Kind {
 	case "https":
 		tc := tls.Client(raw, &tls.Config{ServerName: fmt.Sprintf("h%d.test", proxy), InsecureSkipVerify: true})
-		_ = raw.SetDeadline(time.Now().Add(8 * time.Second))
+		_ = raw.SetDeadline(time.Now().Add(20 * time.Second))
 		if err := tc.Handshake(); err != nil {
 			raw.Close()
 			fail("tls handshake: " + err.Error())
@@ -780,7 +804,7 @@ func (r *tunnelRun) runUser(cfgNo int, cfg tnCfg, addr string, p *userPlan, b *t
 		}
 		_, _ = raw.Write(append([]byte(fmt.Sprintf("CONNECT h%d.test:443 HTTP/1.1\r\nHost: h%d.test:443\r\n\r\n", proxy, proxy)), early...))
 		br := bufio.NewReader(raw)
-		_ = raw.SetReadDeadline(time.Now().Add(8 * time.Second))
+		_ = raw.SetReadDeadline(time.Now().Add(20 * time.Second))
 		status, err := br.ReadString('\n')
 		for err == nil {
 			var line string
